@@ -266,14 +266,14 @@ UNIT = {
          'rewrites': [('RX', 'R8e', r'\bevaluator\(scope\)', 'evaluator.call(scope)', None),
                       ('RX', 'R11', r'FeelContext::default\(\)', 'feel_context_default()', None),
                       ('RX', 'R2v', r'for \(opt_name, evaluator\) in &entry_evaluators \{', 'for (opt_name, evaluator) in entry_evaluators.iter() {', 1)],
-         'ensures': [('caller_scope_untouched', STACK_SAME)],
-         'loop_specs': {0: {'invariant': [('one_temporary_context', 'scope.contexts@.len() == old(scope).contexts@.len() + 1 && scope.contexts@.drop_last() =~= old(scope).contexts@')]}}},
+         'ensures': [('caller_scope_untouched', STACK_SAME, ['C13', 'C04'])],
+         'loop_specs': {0: {'invariant': [('one_temporary_context', 'scope.contexts@.len() == old(scope).contexts@.len() + 1 && scope.contexts@.drop_last() =~= old(scope).contexts@', ['C13', 'C04'])]}}},
         {'kind': 'closure', 'src': M, 'path': 'fn build_function_definition_evaluator', 'name': 'boxed_function_definition', 'key': 'purity::model::build_function_definition_evaluator', 'props': P, 'auto_props': A, 'loops': 1, 'ret': 'r',
          'lead_params': ['scope: &mut Scope'], 'extra_params': ['parameters: &Vec<(Name, Evaluator)>', 'function_evaluator: &Evaluator'],
          'rewrites': [('R3',), FOR_EACH('parameters'), ('RX', 'R8e', r'\b(evaluator|function_evaluator)\(scope\)', r'\1.call(scope)', 2),
                       ('RX', 'R8e', r'body\.evaluate\(scope\)', 'function_body_evaluate(&body, scope)', 1),
                       ('RX', 'R11', r'FeelContext::default\(\)', 'feel_context_default()', None)],
-         'ensures': [('caller_scope_untouched', STACK_SAME),
+         'ensures': [('caller_scope_untouched', STACK_SAME, ['C13', 'C04']),
                      ('the_function_over_the_bound_formulas_coerced', BOXED_CALL % ('parameters', 'parameters'), ['C04', 'C13']),
                      ('null_when_not_a_function', '!(ev_value(*function_evaluator, old(scope).contexts@) is FunctionDefinition) ==> r is Null', ['C04', 'C13'])],
          'loop_specs': {0: {'iter_name': 'it', 'invariant': [('scope_not_touched', 'scope.contexts@ == old(scope).contexts@'),
@@ -284,7 +284,7 @@ UNIT = {
          'rewrites': [('R3',), FOR_EACH('bindings'), ('RX', 'R8e', r'\b(evaluator|function_evaluator)\(scope\)', r'\1.call(scope)', 2),
                       ('RX', 'R8e', r'body\.evaluate\(scope\)', 'function_body_evaluate(&body, scope)', 1),
                       ('RX', 'R11', r'FeelContext::default\(\)', 'feel_context_default()', None)],
-         'ensures': [('caller_scope_untouched', STACK_SAME),
+         'ensures': [('caller_scope_untouched', STACK_SAME, ['C13', 'C04']),
                      ('the_function_over_the_bound_formulas_coerced', BOXED_CALL % ('bindings', 'bindings'), ['C04', 'C13']),
                      ('null_when_not_a_function', '!(ev_value(*function_evaluator, old(scope).contexts@) is FunctionDefinition) ==> r is Null', ['C04', 'C13'])],
          'loop_specs': {0: {'iter_name': 'it', 'invariant': [('scope_not_touched', 'scope.contexts@ == old(scope).contexts@'),
